@@ -221,3 +221,74 @@ Fixpoint blk_timed_run_norefresh (wait : Z) (alive : bool) (last : Z) (l : list 
   | TvProgress t :: l' => blk_timed_run_norefresh wait alive last l'
   | TvCheck t :: l' => blk_timed_run_norefresh wait (alive && negb (last + wait <=? t)) last l'
   end.
+
+(* ------------------------------------------------------------------ (F) Block2 server table *)
+(* session->lg_xmit entries for responses: coap_find_lg_xmit_response matches on resource,
+   request method, Uri-Query and Request-Tag - one abstract key here; the stored body and the
+   block size it is served with.  A GET with Block2 NUM 0 (or without a stored body) goes to
+   the application, which answers through coap_add_data_large_response with the body that
+   belongs to the request's key; NUM > 0 with a stored body is served by
+   coap_handle_request_send_block from the lg_xmit. *)
+Record blk_xmit := { xm_key : Z; xm_body : bytes; xm_szx : Z }.
+Definition blk_xtab := list blk_xmit.
+Record blk_greq := { gq_key : Z; gq_num : Z; gq_szx : Z }.
+Inductive blk_gresp :=
+| GrBlock (num m szx : Z) (data : bytes)      (* 2.05 with Block2 num/m/szx *)
+| GrError (code : Z).                         (* 4.00 = 128, 5.00 = 160 *)
+
+Fixpoint blk_xtab_find (t : blk_xtab) (k : Z) : option blk_xmit :=
+  match t with
+  | [] => None
+  | x :: t' => if xm_key x =? k then Some x else blk_xtab_find t' k
+  end.
+
+Fixpoint blk_xtab_remove (t : blk_xtab) (k : Z) : blk_xtab :=
+  match t with
+  | [] => []
+  | x :: t' => if xm_key x =? k then t' else x :: blk_xtab_remove t' k
+  end.
+
+(* the application handler: coap_add_data_large_response_lkd + coap_add_data_large_internal
+   for a response, plenty of room in the PDU; maxszx = COAP_BLOCK_MAX_SIZE_GET (0 = not set) *)
+Definition blk_srv2_app (bodies : Z -> bytes) (maxszx : Z) (t : blk_xtab) (g : blk_greq)
+  : blk_xtab * blk_gresp :=
+  let body := bodies (gq_key g) in
+  let c := blk_chunk (gq_szx g) in
+  if negb (gq_num g =? 0) && (len body <=? gq_num g * c) then (t, GrError 128)   (* illegal block *)
+  else
+    let t1 := blk_xtab_remove t (gq_key g) in       (* an older stored body for the key is freed *)
+    let s := if negb (maxszx =? 0) && (maxszx <? gq_szx g) then maxszx else gq_szx g in
+    if negb (gq_num g =? 0) then
+      (* "App is defining a single block to send": no lg_xmit; the option keeps the requested
+         SZX and the More bit computed for it, the data is cut with the (possibly smaller)
+         block size s *)
+      (t1, GrBlock (gq_num g) (if c <? len body - gq_num g * c then 1 else 0) (gq_szx g)
+                   (blk_slice_c body (blk_chunk s) (gq_num g)))
+    else if blk_chunk s <? len body then
+      ({| xm_key := gq_key g; xm_body := body; xm_szx := s |} :: t1,
+       GrBlock 0 1 s (blk_slice body s 0))
+    else (t1, GrBlock 0 0 s body).
+
+(* coap_handle_request_send_block in front of it *)
+Definition blk_srv2_recv (bodies : Z -> bytes) (maxszx : Z) (t : blk_xtab) (g : blk_greq)
+  : blk_xtab * blk_gresp :=
+  if gq_num g =? 0 then blk_srv2_app bodies maxszx t g          (* "get a fresh copy of the data" *)
+  else
+    match blk_xtab_find t (gq_key g) with
+    | None => blk_srv2_app bodies maxszx t g
+    | Some x =>
+        if negb (gq_szx g =? xm_szx x) then (t, GrError 128)    (* changing block size: 4.00 *)
+        else
+          let c := blk_chunk (xm_szx x) in
+          if len (xm_body x) <=? gq_num g * c then (t, GrError 160)
+          else (t, GrBlock (gq_num g) (if gq_num g * c + c <? len (xm_body x) then 1 else 0)
+                           (xm_szx x) (blk_slice (xm_body x) (xm_szx x) (gq_num g)))
+    end.
+
+Fixpoint blk_srv2_run (bodies : Z -> bytes) (maxszx : Z) (t : blk_xtab) (l : list blk_greq)
+  : list (blk_greq * blk_gresp) :=
+  match l with
+  | [] => []
+  | g :: l' => let '(t', r) := blk_srv2_recv bodies maxszx t g in
+               (g, r) :: blk_srv2_run bodies maxszx t' l'
+  end.
